@@ -191,4 +191,35 @@ MVOfTermsFrom(ts, i, g) ==
              m == IF r[1] = 0 THEN MVZero ELSE Mono(r[2], QMul(QInt(r[1]), QOf(ts[i][2])))
          IN  MVAdd(m, MVOfTermsFrom(ts, i + 1, g))
 MVOfTerms(ts, g) == MVOfTermsFrom(ts, 1, g)
+
+(* coefficients that are symbolic expressions (pymbolic Variable / Sum /    *)
+(* Product over numbers): a coefficient tree is the record                  *)
+(*   [k |-> "num"|"var"|"sum"|"prod", q |-> << num, den, kind >>,           *)
+(*    nm |-> variable name, a |-> sequence of child trees].                 *)
+(* "Coefficient-wise comparison" of such multivectors compares the trees    *)
+(* node by node, number leaves by value (2 = Fraction(2, 1)); evaluation at *)
+(* a point (x, y) gives the rational multivector the symbolic one denotes   *)
+(* there.                                                                   *)
+RECURSIVE NormT(_)
+NormT(t) == [k |-> t.k, q |-> IF t.k = "num" THEN QOf(t.q) ELSE Q0, nm |-> t.nm,
+             a |-> [i \in 1..Len(t.a) |-> NormT(t.a[i])]]
+RECURSIVE EvalT(_, _), EvalArgs(_, _, _, _)
+EvalArgs(ts, i, p, isSum) ==
+    IF i > Len(ts) THEN (IF isSum THEN Q0 ELSE Q1)
+    ELSE IF isSum THEN QAdd(EvalT(ts[i], p), EvalArgs(ts, i + 1, p, isSum))
+    ELSE QMul(EvalT(ts[i], p), EvalArgs(ts, i + 1, p, isSum))
+EvalT(t, p) ==
+    CASE t.k = "num"  -> QOf(t.q)
+      [] t.k = "var"  -> (IF t.nm = "x" THEN p[1] ELSE p[2])
+      [] t.k = "sum"  -> EvalArgs(t.a, 1, p, TRUE)
+      [] t.k = "prod" -> EvalArgs(t.a, 1, p, FALSE)
+      [] OTHER        -> QBad
+\* terms << increasing word, tree >>, one per blade; a number leaf 0 is no term
+TreeZero(t) == t.k = "num" /\ QIsZero(QOf(t.q))
+TWords(ts) == { ts[i][1] : i \in { j \in 1..Len(ts) : ~TreeZero(ts[j][2]) } }
+TreeAt(ts, x) == ts[CHOOSE i \in 1..Len(ts) : ts[i][1] = x][2]
+TMV(ts) == [x \in TWords(ts) |-> NormT(TreeAt(ts, x))]
+EvalTMV(ts, p) == Strip([x \in TWords(ts) |-> EvalT(TreeAt(ts, x), p)])
+TWellFormed(ts, n) == /\ \A i \in 1..Len(ts) : IsBlade(ts[i][1], n)
+                      /\ \A i, j \in 1..Len(ts) : ts[i][1] = ts[j][1] => i = j
 =============================================================================
